@@ -2,6 +2,7 @@ package mon
 
 import (
 	"fmt"
+	"math"
 	"sort"
 	"strings"
 
@@ -88,7 +89,7 @@ func (p *prog) expect(ok bool, what, expected, observed string) {
 	}
 }
 
-var c05Ints = []int{0, 1, 2, 3, -1, 7, 1 << 30}
+var c05Ints = []int{0, 1, 2, 3, -1, 7, 1 << 30, math.MaxInt, math.MinInt, -2}
 var c05Floats = []float64{0.5, 1, 2.5, -3, 1e21, 0}
 var c05Strs = []string{"a", "b", "", "zz", "a b", "é"}
 
